@@ -117,7 +117,20 @@ func (m *Mast) Delete(ctx context.Context, key, value interface{}) error {
 		return fmt.Errorf("savePathForRoot: %w", err)
 	}
 	m.size--
-	for m.size < m.shrinkBelowSize && m.height > 0 {
+	for m.height > 0 {
+		// Keep the height a function of the contents alone, so that it is the
+		// one an insert-only history of the same entries arrives at: a level is
+		// kept only while size-1 >= branchFactor^height and the top node
+		// still holds a key (i.e. some key's layer reaches the height).
+		if m.size > m.shrinkBelowSize {
+			root, err := m.load(ctx, m.root)
+			if err != nil {
+				return fmt.Errorf("load root: %w", err)
+			}
+			if len(root.Key) > 0 {
+				break
+			}
+		}
 		err = m.shrink(ctx)
 		if err != nil {
 			return fmt.Errorf("shrink: %w", err)
